@@ -9,7 +9,7 @@ import rasterio
 from rasterio.transform import from_origin
 
 
-def write_tif(path, arr, dtype="float32", descriptions=None, georef=False, nodata=None):
+def write_tif(path, arr, dtype="float32", descriptions=None, georef=False, nodata=None, origin=(500000.0, 4800000.0)):
     """arr: (rows, cols) or (bands, rows, cols)."""
     arr = np.asarray(arr)
     if arr.ndim == 2:
@@ -17,7 +17,7 @@ def write_tif(path, arr, dtype="float32", descriptions=None, georef=False, nodat
     kw = {}
     if georef:
         kw["crs"] = "EPSG:32631"
-        kw["transform"] = from_origin(500000.0, 4800000.0, 0.5, 0.5)
+        kw["transform"] = from_origin(origin[0], origin[1], 0.5, 0.5)
     if nodata is not None:
         kw["nodata"] = nodata
     os.makedirs(os.path.dirname(path), exist_ok=True)
